@@ -328,6 +328,17 @@ theorem parity_nonnumber (v : Value) (h : asNumber? v = none) :
     ISEVEN [v] = .ok (.err .value) ∧ ISODD [v] = .ok (.err .value) := by
   simp only [ISEVEN, ISODD, h, and_self]
 
+/-- On a LOGICAL the two parity functions answer alike and complementary: TRUE counts as the number 1 (odd), FALSE as 0
+    (even) - the clause the check's oracle demands of every logical (`ISEVEN` and `ISODD` both a parity, never one a
+    parity and the other an error). -/
+theorem parity_logical (b : Bool) :
+    ∃ e r, ISEVEN [.bool b] = .ok (.bool e) ∧ ISODD [.bool b] = .ok r ∧ e = !b ∧ pyTruthy r = b := by
+  cases b
+  · exact ⟨_, _, rfl, rfl, rfl, rfl⟩
+  · exact ⟨_, _, rfl, rfl, rfl, rfl⟩
+
+example : ISEVEN [.bool true] = .ok (.bool false) ∧ ISODD [.bool false] = .ok (.num (.int 0)) := ⟨rfl, rfl⟩
+
 /-- `truncNum` really is truncation toward zero: an integer of the same sign as the number, not
     larger in absolute value, and less than 1 away from it. -/
 theorem truncNum_spec (n : Num) :
